@@ -1,13 +1,18 @@
 (* Extraction entry point for C11: one generic [dispatch] over byte strings.
    Requests
-     serve  MODE STATUS CTYPE FAILS NCHUNKS chunk*  EHFLAG NOPS (kind a b)*  RESP_real  RESP_eh
-       MODE "b" buffered / "s" streamed; STATUS, NCHUNKS, NOPS decimal; FAILS, EHFLAG "0"/"1";
-       op kinds: S k v | D k - | H code - | W p - | E msg code;
+     serve  VIA REQ  MODE STATUS CTYPE AWARE FAILS NCHUNKS chunk*  EHFLAG NOPS (kind a b)*  RESP_real  RESP_eh
+       VIA "r": responses observed at the ResponseWriter (recorder) / "s": by the HTTP client of the request;
+       REQ = METHOD MAJOR MINOR TARGET CTX NHEADERS (k v)* BODY, CTX "live" | "ahead" | "canceled" | "exceeded";
+       MODE "b" buffered / "s" streamed; STATUS, NCHUNKS, NOPS decimal; AWARE, FAILS, EHFLAG "0"/"1"
+       (AWARE: the component returns ctx.Err() before writing anything if the context is done);
+       op kinds: S k v | D k - | H code - | W p - | E msg code | R k - (echo of the request);
        RESP = status nheaders (k v)* body   (headers sorted by key)
-       RESP_real: what the real handler answered; RESP_eh: what the real error handler answers on its own.
-       reply: model=real?  all_or_nothing_b on the real response?  model's eh_alone = RESP_eh?
+       RESP_real: what the real handler answered; RESP_eh: what the real error handler answers on its own
+       to the same request.
+       reply: model=real?  specification predicate on the real response (all_or_nothing_b; for VIA "s"
+              all_or_nothing_wire_b with head = the method is HEAD)?  model's eh_alone = RESP_eh?
               model status, model headers ("k: v\n" each), model body length
-     rw     NOPS (kind a b)*  RESP_real
+     rw     VIA REQ  NOPS (kind a b)*  RESP_real
        reply: model=real?  model status, headers, body length *)
 From Coq.Strings Require Import Byte String.
 From Coq Require Import List NArith Bool.
@@ -42,6 +47,7 @@ Definition mkop (kind x y : bytes) : eh_op :=
   else if is kind "D" then ODel x
   else if is kind "H" then OWriteHeader (num x)
   else if is kind "W" then OWrite x
+  else if is kind "R" then OEcho x
   else OError x (num y).
 Fixpoint take_ops (n : nat) (a : list bytes) : list eh_op * list bytes :=
   match n with
@@ -63,14 +69,35 @@ Definition take_resp (a : list bytes) : resp * list bytes :=
   | _ => (bad_resp, [])
   end.
 
+Definition mkctx (b : bytes) : ctx_state :=
+  if is b "ahead" then CtxDeadlineAhead else if is b "canceled" then CtxCanceled
+  else if is b "exceeded" then CtxDeadlineExceeded else CtxLive.
+Definition bad_req : request :=
+  {| q_method := []; q_major := 0; q_minor := 0; q_target := []; q_hdr := []; q_body := []; q_ctx := CtxLive |}.
+Definition take_req (a : list bytes) : request * list bytes :=
+  match a with
+  | m :: ma :: mi :: tg :: cx :: nh :: r =>
+      let '(h, r1) := take_pairs (N.to_nat (num nh)) r in
+      match r1 with
+      | body :: r2 => ({| q_method := m; q_major := num ma; q_minor := num mi; q_target := tg; q_hdr := h;
+                          q_body := body; q_ctx := mkctx cx |}, r2)
+      | [] => (bad_req, [])
+      end
+  | _ => (bad_req, [])
+  end.
+(* how the response was observed *)
+Definition view (via : bytes) (q : request) (r : resp) : resp := if is via "s" then client_view q r else r.
+
 Definition show_hdr (h : headers) : bytes :=
   concat (map (fun kv => fst kv ++ [x3a; x20] ++ snd kv ++ [x0a]) h).
 Definition show (r : resp) : list bytes :=
   [dec (r_status r); show_hdr (r_hdr r); dec (N.of_nat (length (r_body r)))].
 
-Definition do_serve (a : list bytes) : list bytes :=
+Definition do_serve (a0 : list bytes) : list bytes :=
+  match a0 with [] => [bs "?args"] | via :: a1 =>
+  let '(q, a) := take_req a1 in
   match a with
-  | mode :: st :: ct :: fl :: nch :: r =>
+  | mode :: st :: ct :: aw :: fl :: nch :: r =>
       let '(chs, r1) := take (N.to_nat (num nch)) r in
       match r1 with
       | ehf :: nops :: r2 =>
@@ -80,25 +107,29 @@ Definition do_serve (a : list bytes) : list bytes :=
           let c := {| c_status := num st; c_ctype := ct;
                       c_errh := if flag ehf then Some (run_ops ops) else None;
                       c_stream := is mode "s" |} in
-          let o := {| chunks := chs; fails := flag fl |} in
-          let m := observe (serve c o) in
-          let ehtie := match eh_alone c with Some e => resp_eqb e ehr | None => true end in
-          let spec := all_or_nothing_b (num st) ct (if flag ehf then Some ehr else None) (document o) (flag fl) real in
+          let k := comp_of (flag aw) {| chunks := chs; fails := flag fl |} in
+          let o := k (q_ctx q) in
+          let m := view via q (observe (serve q c k)) in
+          let ehtie := match eh_alone q c with Some e => resp_eqb (view via q e) ehr | None => true end in
+          let spec := all_or_nothing_wire_b (is via "s" && is_head q) (num st) ct (if flag ehf then Some ehr else None)
+                        (document o) (fails o) real in
           b2 (resp_eqb m real) :: b2 spec :: b2 ehtie :: show m
       | _ => [bs "?args"]
       end
   | _ => [bs "?args"]
-  end.
+  end end.
 
-Definition do_rw (a : list bytes) : list bytes :=
+Definition do_rw (a0 : list bytes) : list bytes :=
+  match a0 with [] => [bs "?args"] | via :: a1 =>
+  let '(q, a) := take_req a1 in
   match a with
   | nops :: r =>
       let '(ops, r1) := take_ops (N.to_nat (num nops)) r in
       let '(real, _) := take_resp r1 in
-      let m := observe (run_ops ops fresh) in
+      let m := view via q (observe (run_ops ops q fresh)) in
       b2 (resp_eqb m real) :: show m
   | _ => [bs "?args"]
-  end.
+  end end.
 
 Definition dispatch (f : bytes) (a : list bytes) : list bytes :=
   if is f "serve" then do_serve a
